@@ -83,8 +83,10 @@ fn m_simple(s: &Simple, d: &Dom, i: usize) -> bool {
     let Some((name, _html, _)) = d.elem(i) else { return false };
     match s {
         Simple::Tag(t) => name == t,
-        Simple::Class(c) => d.attr(i, "class").map(|v| v.split_whitespace().any(|x| x == c)).unwrap_or(false),
-        Simple::Id(x) => d.attr(i, "id") == Some(x.as_str()),
+        // the explored documents have no doctype, i.e. are parsed in quirks mode, where CSS
+        // matches class and id names ASCII case-insensitively
+        Simple::Class(c) => d.attr(i, "class").map(|v| v.split_whitespace().any(|x| x.eq_ignore_ascii_case(c))).unwrap_or(false),
+        Simple::Id(x) => d.attr(i, "id").map(|v| v.eq_ignore_ascii_case(x)).unwrap_or(false),
         Simple::Star => true,
         Simple::Nth(a, b) => d.nodes[i].parent.is_some() && nth_matches(*a, *b, d.elem_index(i) as i32),
     }
@@ -266,6 +268,8 @@ struct S {
     n_nth: u64,
 }
 const NTH_RANGE: i32 = 5;
+/// Characters a class or id name may consist of (after the first letter).
+const IDENT_CHARS: &str = "abcdefghijklmnopqrstuvwxyzABCDEFGHIJKLMNOPQRSTUVWXYZ0123456789_-";
 impl S {
     fn selector(&self, len: usize, code: u64) -> Sel {
         // digits: compound_1, (comb_2, compound_2), ...
@@ -295,7 +299,7 @@ impl S {
 }
 impl Scope for S {
     fn units(&self) -> u64 {
-        *self.sel_off.last().unwrap() + self.n_lists + self.n_nth
+        *self.sel_off.last().unwrap() + self.n_lists + self.n_nth + IDENT_CHARS.len() as u64
     }
     fn run_unit(&self, unit: u64, cx: &mut Cx) {
         let nsel = *self.sel_off.last().unwrap();
@@ -314,6 +318,22 @@ impl Scope for S {
             let pick = |x: u64| if x < self.n_selectors(1) { self.selector(1, x) } else { self.selector(2, (x - self.n_selectors(1)) * 7 % self.n_selectors(2)) };
             for d in &self.docs {
                 check(&Case { doc: d.clone(), sels: vec![pick(a), pick(b)], text: None }, cx);
+            }
+        } else if unit >= nsel + self.n_lists + self.n_nth {
+            // class and id names containing each identifier character (inside and at the end)
+            let c = IDENT_CHARS.chars().nth((unit - nsel - self.n_lists - self.n_nth) as usize).unwrap();
+            for name in [format!("k{c}z"), format!("k{c}"), format!("k{c}{c}9")] {
+                let doc = format!("<div><p class=\"{name}\" id=\"i{name}\">a</p><p class=\"kz\">b</p><span class=\"x {name}\">c</span><p id=\"{name}\">d</p></div>");
+                let one = |x: Vec<Simple>| Sel { first: x, rest: vec![] };
+                for sels in [
+                    vec![one(vec![Simple::Class(name.clone())])],
+                    vec![one(vec![Simple::Id(format!("i{name}"))])],
+                    vec![one(vec![Simple::Tag("p".into()), Simple::Class(name.clone())])],
+                    vec![one(vec![Simple::Id(name.clone())]), one(vec![Simple::Class("kz".into())])],
+                    vec![Sel { first: vec![Simple::Tag("div".into())], rest: vec![(Comb::Desc, vec![Simple::Class(name.clone())])] }],
+                ] {
+                    check(&Case { doc: doc.clone(), sels, text: None }, cx);
+                }
             }
         } else {
             // every :nth-child(an+b), a,b in -5..=5, plus odd / even / spacing variants, on sibling
@@ -362,7 +382,7 @@ impl Scope for S {
     }
     fn info(&self) -> Info {
         Info {
-            rule: "all selectors of up to maxc compounds over 14 compounds (element, *, classes, id, element.class, .a.b, three :nth-child forms) with both combinators (third and later compounds from the first 8), selector lists of two members, and every :nth-child(an+b) with a,b in -5..=5 (plus odd/even/spacing/sign spellings) on sibling lists of 0..8 elements interleaved with text and comments; on documents with nesting to depth 5, repeated classes on ancestor chains and mixed children; non-trivial = the expected match set is neither empty nor everything".into(),
+            rule: "all selectors of up to maxc compounds over 14 compounds (element, *, classes, id, element.class, .a.b, three :nth-child forms) with both combinators (third and later compounds from the first 8), selector lists of two members, class and id names containing each of the 64 identifier characters, and every :nth-child(an+b) with a,b in -5..=5 (plus odd/even/spacing/sign spellings) on sibling lists of 0..8 elements interleaved with text and comments; on documents with nesting to depth 5, repeated classes on ancestor chains and mixed children; non-trivial = the expected match set is neither empty nor everything".into(),
             bounds: json!({"documents": self.docs.len(), "compounds": self.comps.iter().map(|c| comp_str(c)).collect::<Vec<_>>(), "max_compounds": self.sel_off.len() - 1, "selectors": self.sel_off.last(), "selector_lists": self.n_lists, "nth_child_pairs": self.n_nth, "tier": self.tier.name()}),
             assumptions: vec!["tokens are unique letters per document, so the set of coloured letters identifies the matched elements' subtrees".into()],
         }
